@@ -29,14 +29,16 @@ TRUSTED = ["hand-written models Model/Wire.lean of the nine drivers' encoders/de
            "vendor descriptions; hid.hasseb, ATX, legacy hasseb, UniPi, the LUBA priority rule and the position of the data "
            "bytes in the SCI transmit frame are *pinned* to the tree (regression baseline, not independent evidence)"]
 ASSUMPTIONS = ["frames satisfy the Frame invariant (0 <= data < 2^bits, C05)", "received bytes are 0..255"]
-PARTIAL = ("checksum_valid is not a separate theorem (the checksum byte is inside the format that …_encode_conforms proves equality with; validity checked on instances and by the harness); twice_iff is stated for Tridonic, hid.hasseb and daliserver only (for the others the flag is a field of the format equated by …_encode_conforms); decode_wellformed is proved for hid.hasseb, daliserver and UniPi, the Tridonic/legacy/ATX decoders are tied exhaustively over their codes by the correspondence but carry no theorem; pinned formats (see trusted base); the SCI transmit frame puts a 16-bit frame into the HI/MI data bytes while the "
+PARTIAL = ("the receive loop of hid.tridonic _send_raw is proved for report sequences with exactly the prescribed number of transmission confirmations and exactly one answering report, in any order, interleaved with meaningless reports (tridonic_receive_wellformed; tridonic_receive_waits while one is missing) — sequences with surplus confirmations or several answers (where the loop waits forever / keeps the last answer seen before completion) are only covered by the model tie; twice_iff for the ATX hat holds for 16-bit commands only because the hat has no send-twice letter for other widths (stated as: prefix 't' iff sendtwice and 16 bits); pinned formats (see trusted base); the SCI transmit frame puts a 16-bit frame into the HI/MI data bytes while the "
            "driver's own receiver reads 16-bit frames from MI/LO — recorded as a candidate finding, not adjudicated without the "
-           "vendor document; the UniPi driver's _get_sn is dead code (always 1) and carries no theorem; ATX int(.., 16) "
-           "leniencies (sign, blanks, underscores) are outside the modelled well-formed answers")
-LEVEL_TEXT = ("Lean 4 theorems, for every frame of a carried width and every flag combination: each driver model's packet equals "
-              "the gateway format (…_encode_conforms), has the fixed length, a valid checksum (LUBA, SCI), the send-twice "
-              "flag/repetition exactly when the command requires it (…_twice_iff), and every other width is refused "
-              "(…_refuses); every well-formed received packet decodes to what the format denotes (…_decode_wellformed); the "
+           "vendor document (sci_frame_recoverable states the transmit alignment the code uses); the UniPi driver's _get_sn is dead code (always 1) and carries no theorem; ATX int(.., 16) "
+           "leniencies (sign, blanks, underscores) are outside the modelled well-formed answers (atx_decode_wellformed covers <letter><hex><hex> with/without newline, either case)")
+LEVEL_TEXT = ("Lean 4 theorems, for every frame of a carried width and every flag combination (universally quantified, no enumeration): each driver model's packet equals "
+              "the gateway format (…_encode_conforms), has the fixed length (…_length_fixed, atx_length_exact: two hex digits per frame byte), a valid checksum "
+              "(luba/sci_checksum_valid for the encoders, luba/sci_format_checksum_valid for the formats, via xor-fold lemmas), the send-twice "
+              "flag/bit/prefix/repetition exactly when the command requires it (…_twice_iff for all nine drivers), the frame recoverable big-endian from the prescribed field together with the width/mode code "
+              "(…_frame_recoverable for all nine, frame_bytes_recoverable for every width), and every other width is refused "
+              "(…_refuses); every well-formed received packet decodes to what the format denotes (…_decode_wellformed for hid.tridonic — including the receive loop over the reports of one command, tridonic_receive_wellformed/_waits —, hid.hasseb, daliserver, ATX, legacy Tridonic, legacy hasseb, UniPi); the "
               "three sequence-number generators stay in 1..255 and never repeat immediately, by induction on the number of "
               "sends (…_seq_range, …_seq_no_immediate_repeat).")
 LEVEL_NOTE = ("Trusted: Lean kernel; the hand-written models correspond to the drivers as far as the correspondence suite "
@@ -51,8 +53,18 @@ THEOREMS = (
     + ["%s_encode_conforms" % d for d in DRIVERS]
     + ["%s_refuses" % d for d in DRIVERS]
     + ["tridonic_twice_iff", "hidhasseb_twice_iff", "daliserver_twice_iff",
+       "luba_twice_iff", "luba_format_twice_iff", "sci_twice_iff", "sci_format_twice_iff", "atx_twice_iff",
+       "ltridonic_twice_iff", "lhasseb_twice_iff", "unipi_twice_iff",
        "tridonic_length_fixed", "luba_length_fixed", "sci_length_fixed",
+       "hidhasseb_length_fixed", "daliserver_length_fixed", "ltridonic_length_fixed", "lhasseb_length_fixed",
+       "atx_length_exact",
+       "luba_checksum_valid", "sci_checksum_valid", "luba_format_checksum_valid", "sci_format_checksum_valid",
        "hidhasseb_decode_wellformed", "daliserver_decode_wellformed", "unipi_decode_wellformed",
+       "tridonic_decode_wellformed", "ltridonic_decode_wellformed", "lhasseb_decode_wellformed",
+       "atx_decode_wellformed", "atx_hexByte_digits", "tridonic_receive_wellformed", "tridonic_receive_waits",
+       "frame_bytes_recoverable"]
+    + ["%s_frame_recoverable" % d for d in DRIVERS]
+    + ["luba_format_frame_recoverable", "sci_format_frame_recoverable",
        "tridonic_seq_range", "tridonic_seq_no_immediate_repeat", "ltridonic_seq_range",
        "ltridonic_seq_no_immediate_repeat", "lhasseb_seq_range", "lhasseb_seq_no_immediate_repeat"])
 
